@@ -908,3 +908,114 @@ Proof. split; vm_compute; reflexivity. Qed.
 
 Lemma fits_new s : zlen s < 4294967296 -> fits (Parser.parser_new s).
 Proof. intro H. unfold fits. cbn. lia. Qed.
+
+(* ------------------------------------------------------------------ the macro's own two calls *)
+(** the expansion writes the parser with [p.skip(n)] / [p.skip_back(n)]; the macro model's
+    copies of these two methods (skip_m, skip_back_m) are Model.Parser's, on byte values *)
+From KV Require Model.Utf8 Model.Split.
+
+Definition is_byte (b : Z) : Prop := 0 <= b < 256.
+
+Lemma boundary_not_cont b : is_byte b -> Utf8.byte_is_boundary b = negb (is_cont b).
+Proof.
+  unfold is_byte, Utf8.byte_is_boundary, Utf8.as_i8, is_cont. intro H.
+  destruct (Z.ltb_spec b 128); destruct (Z.leb_spec 128 b); destruct (Z.ltb_spec b 192); cbn [andb negb];
+    try lia; apply Z.leb_le || apply Z.leb_gt; lia.
+Qed.
+
+Lemma count_cont_round_up l : Forall is_byte l -> Split.count_cont l = round_up l.
+Proof.
+  induction 1 as [|b l Hb _ IH]; [reflexivity|]. cbn [Split.count_cont round_up].
+  rewrite (boundary_not_cont b Hb). destruct (is_cont b); cbn [negb]; [now rewrite IH | reflexivity].
+Qed.
+
+Lemma round_up_le l : (round_up l <= length l)%nat.
+Proof. induction l as [|b l IH]; cbn [round_up length]; [lia|]. destruct (is_cont b); lia. Qed.
+
+Lemma Forall_skipn {A} (Pr : A -> Prop) n l : Forall Pr l -> Forall Pr (skipn n l).
+Proof.
+  intro H. revert n. induction H as [|x l Hx Hl IH]; intro n; [rewrite skipn_nil; constructor|].
+  destruct n; cbn [skipn]; [now constructor | apply IH].
+Qed.
+
+(** [Parser::skip] *)
+Lemma skip_m_is_step P n : fits P -> Forall is_byte (Parser.p_str P) ->
+  exists Q, Parser.step P (Parser.OSkip n) = Parser.POk Parser.VNone Q /\
+            abs Q = skip_m (abs P) n /\ Parser.p_yls Q = Parser.p_yls P.
+Proof.
+  intros [H0 H1] Hb. eexists. split; [reflexivity|]. split; [|reflexivity].
+  unfold skip_m, abs. cbn [p_rem p_off Parser.p_str Parser.p_start Parser.p_dir abs_dir].
+  unfold Parser.boundary_up. rewrite (count_cont_round_up _ (Forall_skipn _ (Z.to_nat n) _ Hb)).
+  set (bc := if zlen (Parser.p_str P) <? n then length (Parser.p_str P)
+             else (Z.to_nat n + round_up (skipn (Z.to_nat n) (Parser.p_str P)))%nat).
+  assert (Hbc : (bc <= length (Parser.p_str P))%nat).
+  { unfold bc. destruct (Z.ltb_spec (zlen (Parser.p_str P)) n) as [L|L]; [lia|].
+    pose proof (round_up_le (skipn (Z.to_nat n) (Parser.p_str P))) as Hr. rewrite skipn_length in Hr.
+    unfold zlen in L. lia. }
+  unfold zlen in H1. rewrite (u32_id (Z.of_nat bc)) by lia. rewrite u32_id by lia. reflexivity.
+Qed.
+
+Lemma round_down_past s pos : (length s <= pos)%nat -> round_down s pos = length s.
+Proof.
+  induction pos as [|p IH]; intro H; cbn [round_down]; [lia|].
+  unfold is_boundary_at. rewrite (skipn_all2 s) by lia.
+  destruct (Nat.eqb_spec (S p) (length s)) as [E|N]; [exact E | apply IH; lia].
+Qed.
+
+Lemma skipn_nth_cons (s : list Z) m : (m < length s)%nat -> skipn m s = nth m s 0 :: skipn (S m) s.
+Proof.
+  revert m. induction s as [|x s IH]; intros m H; cbn [length] in H; [lia|].
+  destruct m; [reflexivity|]. cbn [skipn nth]. apply IH. lia.
+Qed.
+
+Lemma firstn_S_snoc (s : list Z) m : (m < length s)%nat -> firstn (S m) s = firstn m s ++ [nth m s 0].
+Proof.
+  revert m. induction s as [|x s IH]; intros m H; cbn [length] in H; [lia|].
+  destruct m; [reflexivity|]. cbn [firstn nth app]. f_equal. apply IH. lia.
+Qed.
+
+Lemma Forall_nth_byte s m : Forall is_byte s -> (m < length s)%nat -> is_byte (nth m s 0).
+Proof. intros H Hm. rewrite Forall_forall in H. apply H. now apply nth_In. Qed.
+
+Lemma round_down_count s : Forall is_byte s -> forall pos, (pos < length s)%nat ->
+  (Split.count_cont (rev (firstn (S pos) s)) <= pos)%nat ->
+  round_down s pos = (pos - Split.count_cont (rev (firstn (S pos) s)))%nat.
+Proof.
+  intros Hb. induction pos as [|p IH]; intros Hp Hk; [reflexivity|].
+  rewrite (firstn_S_snoc s (S p) Hp), rev_app_distr in Hk |- *. cbn [rev app Split.count_cont] in Hk |- *.
+  cbn [round_down]. unfold is_boundary_at. rewrite (skipn_nth_cons s (S p) Hp).
+  rewrite (boundary_not_cont _ (Forall_nth_byte s (S p) Hb Hp)) in Hk |- *.
+  destruct (is_cont (nth (S p) s 0)); cbn [negb] in Hk |- *; [|lia].
+  rewrite IH by lia. lia.
+Qed.
+
+(** [Parser::skip_back]; where Model.Parser reports the [pos -= 1] underflow ([PPanic],
+    impossible for a &str: C01's skip_back_no_panic) the macro model has no parser *)
+Lemma skip_back_m_is_step P n Q : Forall is_byte (Parser.p_str P) ->
+  Parser.step P (Parser.OSkipBack n) = Parser.POk Parser.VNone Q ->
+  abs Q = skip_back_m (abs P) n /\ Parser.p_yls Q = Parser.p_yls P.
+Proof.
+  intros Hb. cbn [Parser.step]. set (pos := Z.to_nat (Z.max 0 (zlen (Parser.p_str P) - n))).
+  destruct (Parser.boundary_down (Parser.p_str P) pos) as [k|] eqn:E; [|discriminate].
+  intro H; inversion H; subst Q. split; [|reflexivity].
+  unfold skip_back_m, abs. cbn [p_rem p_off Parser.p_str Parser.p_start Parser.p_dir abs_dir]. fold pos.
+  f_equal. unfold Parser.boundary_down in E.
+  destruct (Nat.leb_spec (length (Parser.p_str P)) pos) as [L|L].
+  - inversion E; subst k. rewrite (round_down_past _ _ L). now rewrite firstn_all, firstn_all2.
+  - destruct (Nat.leb_spec (Split.count_cont (rev (firstn (S pos) (Parser.p_str P)))) pos) as [L2|L2]; [|discriminate].
+    inversion E; subst k. now rewrite (round_down_count _ Hb pos L L2).
+Qed.
+
+(** so the write-back of every form, [set_rem], is the Parser call the expansion makes *)
+Lemma set_rem_is_step s P r Q : fits_for s P -> Forall is_byte (Parser.p_str P) ->
+  Parser.step P (match s with
+                 | AtStart => Parser.OSkip (zlen (Parser.p_str P) - zlen r)
+                 | AtEnd => Parser.OSkipBack (zlen (Parser.p_str P) - zlen r)
+                 end) = Parser.POk Parser.VNone Q ->
+  abs Q = set_rem s (abs P) r.
+Proof.
+  intros Hf Hb Hs. destruct s; cbn [set_rem fits_for] in *.
+  - destruct (skip_m_is_step P (zlen (Parser.p_str P) - zlen r) Hf Hb) as (Q' & Hs' & E & _).
+    rewrite Hs in Hs'. inversion Hs'; subst Q'. exact E.
+  - exact (proj1 (skip_back_m_is_step P _ Q Hb Hs)).
+Qed.
